@@ -36,7 +36,7 @@ Definition lu (n1 : Z) (b : Q) : Z * Z :=
   (l1, u1).
 
 (* ---------- index_add_ on the flat view ---------- *)
-Fixpoint add_at (i : nat) (v : Q) (l : list Q) : list Q :=
+Fixpoint add_at (i : nat) (v : Q) (l : list Q) {struct l} : list Q :=
   match l with
   | [] => []
   | x :: t => match i with O => Qred (x + v) :: t | S i' => x :: add_at i' v t end
